@@ -42,6 +42,8 @@ package raft
 //@   requires !gfault
 //@   requires [PA1.install-not-stale] req.term >= r.term ==> req.lastIndex >= r.commitIndex && req.lastIndex >= r.snaps.index
 //@   requires [PA1.install-new-index] req.term >= r.term ==> !fs[mfile(r.snaps.dir, req.lastIndex)]
+// (the label a leader sends was written by onTakeSnapshot / an earlier install: its configuration is the one in force at lastIndex, C12)
+//@   requires [PA1.install-config-bound] req.lastConfig.Index <= req.lastIndex
 //@   requires [PA1.install-committed-prefix] req.term >= r.term && r.log.gprev < req.lastIndex && req.lastIndex <= r.lastLogIndex && req.lastIndex <= r.commitIndex ==> r.gterm[req.lastIndex] == req.lastTerm
 //@   modifies *
 //@   maypanic OpError
@@ -56,6 +58,7 @@ package raft
 //@   ensures [C19.commit-monotone] result0 == success ==> r.commitIndex >= old(r.commitIndex)
 //@   ensures [C19.snapshot-monotone] r.snaps.index >= old(r.snaps.index)
 //@   ensures [C19.order] result0 == success ==> r.log.gprev <= r.snaps.index && r.snaps.index <= r.lastLogIndex && r.commitIndex <= r.lastLogIndex && r.log.glast == r.lastLogIndex
+//@   ensures [C19+C08.nodeinv-config] result0 == success ==> CfgWF(r.storage)
 // a snapshot beyond the end of the log is repaired on restart (openStorage, C10.recover-contiguous)
 //@   crash_inv [C10.install-window] gfault || r.log.gprev <= r.snaps.index
 
